@@ -15,6 +15,15 @@ SeedBase == IF "VERIF_SEED" \in DOMAIN IOEnv THEN atoi(IOEnv.VERIF_SEED) ELSE 1
 \* file image: one line to change if the container format gets another canonical writer
 Image(c) == BF!Canon(c)
 
+\* a NON-canonical image of the same content (sample of BinFormat!Layouts): pointer table reversed, label
+\* table by descending address (per-address order kept), text section duplicated with references
+\* alternating between the two copies
+Rev(s) == [i \in 1..Len(s) |-> s[Len(s) + 1 - i]]
+AltImage(c) ==
+  LET t == BF!CanonTextSeq(c, BF!CanonLabelEntries(c))
+  IN BF!Image(c, Rev(BF!CanonPtrTable(c)), BF!LabelEntriesOf(Rev(c.labels)), t \o Rev(t), "alt")
+AltFor(v, c) == IF Len(v) <= 2 THEN AltImage(c) ELSE <<>>
+
 FileNames == << <<97>>, <<98, 46, 108, 122>>, <<130, 160, 149, 92, 46, 98>> >>      \* "a", "b.lz", 2-byte chars + ".b"
 Body(i, len) == [j \in 1..len |-> (i * 71 + j * 13) % 256]
 Lens == IF Quick THEN {0, 1, 4, 5, 33} ELSE {0, 1, 4, 5, 32, 33, 96}
@@ -91,6 +100,7 @@ LayoutLaw(v, lay, err) ==
   /\ IsArcValue(v) /\ IsLayoutFor(v, lay)
   /\ BF!ValidContent(ct)
   /\ LET p == BF!RefParse(Image(ct), "le") IN p.ok /\ BF!SameContent(ct, p.c)
+  /\ Len(v) <= 2 => LET p == BF!RefParse(AltImage(ct), "le") IN p.ok /\ BF!SameContent(ct, p.c)
   /\ IF err.kind = "none"
      THEN /\ Conforms(ct)
           /\ Len(Extract(ct).files) = Len(v) /\ AsSet(Extract(ct).files) = AsSet(v)
@@ -110,7 +120,7 @@ Inv == CASE c.k = "lay" -> LayoutLaw(c.v, c.lay, c.err)
 EmitOne(v, lay, err) ==
   LET ct == ArcContent(v, lay, err)
       ex == Extract(ct)
-  IN PrintT("G " \o ToJson([v |-> v, kind |-> err.kind, padded |-> lay.padded, content |-> ct, image |-> Image(ct),
+  IN PrintT("G " \o ToJson([v |-> v, kind |-> err.kind, padded |-> lay.padded, content |-> ct, image |-> Image(ct), alt |-> AltFor(v, ct),
                             expect |-> IF ex.ok THEN [ok |-> TRUE, files |-> ex.files] ELSE [ok |-> FALSE, files |-> <<>>]]))
 Emit == CASE c.k = "lay" -> EmitOne(c.v, c.lay, c.err)
           [] c.k = "rnd" -> LET rc == RndCase(c.seed) IN EmitOne(rc.v, rc.lay, NoErr)
